@@ -214,7 +214,45 @@ func c10(c *Ctx) {
 			r.Check(ok, "D2", key, c.P.Pos(firstPos(li.header)), "order of the caller's slice cannot influence the result: "+why, "the loop body's effect depends on the order of the caller's entries: "+why)
 		}
 	}
-	r.Floor("D2", nslice, 2)
+	// D2 (continued): every function of the builder packages that receives a slice of dag-pb links (the caller's
+	// entries) may only walk it with a range loop whose body is order-insensitive; a positional access such as
+	// entries[0] makes the result depend on the order the caller happened to use
+	for _, fn := range funcs {
+		rel, _ := c.P.PkgOf(fn)
+		if rel == core.Rel(core.ControlPkg) {
+			continue
+		}
+		for _, p := range fn.Params {
+			sl, ok := p.Type().Underlying().(*types.Slice)
+			if !ok || !strings.Contains(types.TypeString(sl.Elem(), nil), "PBLink") {
+				continue
+			}
+			nslice++
+			key := fmt.Sprintf("%s/entries-param:%s", core.FuncName(fn), p.Name())
+			var bad []string
+			for _, ref := range *p.Referrers() {
+				switch x := ref.(type) {
+				case *ssa.IndexAddr:
+					if !c.rangeIndex(x.Index) {
+						bad = append(bad, fmt.Sprintf("positional access %s[…] at %s", p.Name(), c.P.Pos(x.Pos())))
+					}
+				case *ssa.Slice:
+					bad = append(bad, fmt.Sprintf("sub-slice of %s at %s", p.Name(), c.P.Pos(x.Pos())))
+				}
+			}
+			if fn.Object() == nil || !fn.Object().Exported() {
+				for _, li := range rangeLoops(fn) {
+					if li.kind == "slice" && li.rng == ssa.Value(p) {
+						if ok, why := c.orderInsensitive(li); !ok {
+							bad = append(bad, "range loop with an order-dependent body: "+why)
+						}
+					}
+				}
+			}
+			r.Check(len(bad) == 0, "D2", key, c.P.Pos(fn.Pos()), "the caller's entries are only walked by range loops with order-insensitive bodies", "the result depends on the order of the caller's entries: "+strings.Join(bad, "; "))
+		}
+	}
+	r.Floor("D2", nslice, 5)
 
 	c.assertDagpbSort()
 	c.checkReaderFlow()
